@@ -422,6 +422,14 @@ func main() {
 			continue
 		}
 		twin := "arr:" + id[5:]
+		if fm, sh := splitCell(id); (fm == "arrk:indexOf" || fm == "arrk:includes") && len(sh) > 0 {
+			// the one-step family classes a needle as scalar / array only
+			sh = append([]string{}, sh...)
+			if sh[0] != "array" && sh[0] != "omitted" {
+				sh[0] = "scalar"
+			}
+			twin = cellID2("arr:"+fm[5:], sh)
+		}
 		if tw := failing[twin]; tw != nil && fclause[twin] == fclause[id] {
 			tw.n += cf.n
 			cellCount[twin] += cellCount[id]
